@@ -2,6 +2,7 @@
 import Verif.Common.Proto
 import Verif.C11.Model
 import Verif.C11.Compose
+import Verif.C11.Query
 open Lean Verif.Proto Verif.C11
 
 namespace Verif.C11.Driver
@@ -213,6 +214,25 @@ def handleComposed (j : Json) : Except String Json := do
     | .ok r => pure (Json.mkObj [("parse", pj),
         ("rows", Json.mkObj [("ok", jList (jList optCps) r.rows), ("ordered", Json.bool r.ordered)])])
 
+/-- the public entry points from the full query string (`tsql.inspect_query(qtext)` and, when a raw
+database comes with the request, `tsql.query(qtext, db)`): `_parse_query` in front of the composed
+pipeline -/
+def handleQText (j : Json) : Except String Json := do
+  let text ← getCps j "qtext"
+  match Compose.inspectText text with
+  | .error e => pure (Json.mkObj [("parse", jErr (errTag e))])
+  | .ok q =>
+    let pj := jOk (jQuery q)
+    match j.getObjVal? "rawdb" with
+    | .error _ => pure (Json.mkObj [("parse", pj)])
+    | .ok _ => do
+      let rdb ← (← getArr j "rawdb").mapM ofRawRel
+      let tbl ← ofRx (← j.getObjVal? "rx")
+      match Compose.queryText (rxOf tbl) rdb text with
+      | .error e => pure (Json.mkObj [("parse", pj), ("rows", jErr (errTag e))])
+      | .ok r => pure (Json.mkObj [("parse", pj),
+          ("rows", Json.mkObj [("ok", jList (jList optCps) r.rows), ("ordered", Json.bool r.ordered)])])
+
 /-- one query: parser/select on tokens, the spelling check, the composition with C08, the lexer -/
 def answerQuery (j : Json) : Except String Json := do
   let r0 ← handleQuery j
@@ -227,9 +247,13 @@ def answerQuery (j : Json) : Except String Json := do
           let ps := (ws ++ [['.']]).zip ts
           ts.length = ws.length + 1 && ps.all (fun p => spells p.1 p.2) && seqOKW ps
       pure (r0.mergeObj (Json.mkObj [("spelled", Json.bool ok)]))
-  let r ← match j.getObjVal? "rawdb" with
+  -- the composed pipeline needs the query text (absent when the text is outside the lexer model's alphabet)
+  let r ← match j.getObjVal? "rawdb", j.getObjVal? "text" with
+    | .ok _, .ok _ => do pure (r.mergeObj (Json.mkObj [("composed", ← handleComposed j)]))
+    | _, _ => pure r
+  let r ← match j.getObjVal? "qtext" with
     | .error _ => pure r
-    | .ok _ => do pure (r.mergeObj (Json.mkObj [("composed", ← handleComposed j)]))
+    | .ok _ => do pure (r.mergeObj (Json.mkObj [("cquery", ← handleQText j)]))
   match j.getObjVal? "text" with
   | .error _ => pure r
   | .ok t => do
